@@ -61,7 +61,7 @@ def main():
     if args.prop:
         muts = [m for m in muts if args.prop in (m.get("props") or [m["prop"]])]
     if args.mutant:
-        muts = [m for m in muts if m["id"] == args.mutant]
+        muts = [m for m in muts if m["id"] == args.mutant or (args.mutant.endswith("-") and m["id"].startswith(args.mutant))]
     subprocess.run([os.path.join(ROOT, "bin/check"), "--build-only"], env=ENV)
     bad = 0
     with ThreadPoolExecutor(args.j) as ex:
